@@ -165,8 +165,10 @@ L_SupplyRoot(c, q) == \A as \in Assets : q.sup[as] - c.ext[as] = BookSum(q, as)
 (* L5 the tokenmint module account is a pass-through: it holds nothing between requests *)
 L_ModuleEmpty(c, p, q, a, g, ok) == \A as \in Assets : q.bal[TM][as] = p.bal[TM][as]
 L_ModuleEmptyRoot(c, q) == \A as \in Assets : q.bal[TM][as] = 0
-(* L6 burns never exceed the holder's balance nor the book; the book never becomes negative *)
+(* L6 burns never exceed the holder's balance nor the book; the book never becomes negative, and BurnTokensForApp never   *)
+(*    burns an app's token down to zero (ErrorBurningMakesSupplyLessThanZero: "reduces the supply to 0 or less")           *)
 L_BurnBounded(c, p, q, a, g, ok) ==
+  /\ a = "BurnForApp" /\ ok => q.book[g.app][g.asset].cur > 0
   /\ a \in {"BurnForApp", "BurnGov"} /\ ok =>
         /\ g.amt > 0 /\ p.bal[g.from][g.asset] >= g.amt
         /\ q.bal[g.from][g.asset] = p.bal[g.from][g.asset] - g.amt /\ p.sup[g.asset] - q.sup[g.asset] = g.amt
